@@ -294,7 +294,7 @@ func oblRelevant(o *Obligation, prop string) bool {
 	switch o.Kind {
 	case "nopanic", "requires":
 		return o.Props[prop]
-	case "binding", "limit", "vacuity", "model":
+	case "binding", "limit", "vacuity", "model", "cover":
 		return true
 	}
 	if len(o.Props) == 0 {
